@@ -286,15 +286,19 @@ Definition step_pb (p : pool) (before after : cdump) (s : sstep) : bool :=
 
 Record c03full := { f_case : c03case; f_dump0 : cdump }.
 
-(* rotation discipline, from the implementation's dumped secrets only: the secrets change exactly
-   when a handled request finds the last change more than 5 minutes old, and the old current
-   secret becomes the previous one *)
+(* rotation discipline, from the implementation's dumped secrets only: the secrets change only when a handled
+   request finds the last change 5 minutes old or more, they do change when it is older than that, and the old
+   current secret becomes the previous one *)
 Definition rot_pb (last_rot : Z) (before after : cdump) (s : sstep) : bool * Z :=
   let changed := negb ((d_curr before =? d_curr after) && (d_prev before =? d_prev after)) in
   if negb (q_allow s) then (negb changed, last_rot)
   else
-    let due := (300000 <? q_now s - last_rot)%Z in
-    (Bool.eqb due changed && (negb changed || (d_prev after =? d_curr before)), if changed then q_now s else last_rot).
+    (* what the property needs (the exact instant is the model's business and compared there): no rotation before
+       5 minutes have passed since the last one, a rotation at the first handled request after more than 5 minutes,
+       and the old current secret kept as the previous one *)
+    let age := (q_now s - last_rot)%Z in
+    ((if changed then (300000 <=? age)%Z else (age <=? 300000)%Z) && (negb changed || (d_prev after =? d_curr before)),
+     if changed then q_now s else last_rot).
 
 Definition caps_pb (caps : nat * nat * nat * nat) (d : cdump) : bool :=
   let '(mih, mp, mi, mm) := caps in
